@@ -34,6 +34,8 @@ pub assume_specification<'a> [<Box<str> as From<&'a str>>::from] (s: &str) -> (r
     ensures box_str_view(r) == s@;
 pub assume_specification<'a> [<std::sync::Arc<str> as From<&'a str>>::from] (s: &str) -> (r: std::sync::Arc<str>)
     ensures arc_str_view(r) == s@;
+pub assume_specification<'a> [<String as From<&'a str>>::from] (s: &str) -> (r: String)
+    ensures r@ == s@;
 pub assume_specification [<Box<str> as From<String>>::from] (s: String) -> (r: Box<str>)
     ensures box_str_view(r) == s@;
 pub assume_specification<T> [std::mem::replace] (dest: &mut T, src: T) -> (r: T)
@@ -310,6 +312,18 @@ pub assume_specification<'a> [<BytesMut as From<&'a str>>::from] (s: &'a str) ->
 pub open spec fn char_first(s: Seq<char>, c: char) -> Option<int>
     decreases s.len()
 { if s.len() == 0 { None } else if s[0] == c { Some(0int) } else { match char_first(s.skip(1), c) { Some(i) => Some(i + 1), None => None } } }
+pub proof fn lemma_char_first(s: Seq<char>, c: char)
+    ensures match char_first(s, c) { Some(i) => 0 <= i < s.len() && s[i] == c && forall|j: int| 0 <= j < i ==> s[j] != c, None => forall|j: int| 0 <= j < s.len() ==> s[j] != c }
+    decreases s.len()
+{
+    if s.len() > 0 && s[0] != c {
+        lemma_char_first(s.skip(1), c);
+        match char_first(s.skip(1), c) {
+            Some(i) => { assert forall|j: int| 0 <= j < i + 1 implies s[j] != c by { if j > 0 { assert(s.skip(1)[j - 1] == s[j]); } } assert(s.skip(1)[i] == s[i + 1]); }
+            None => { assert forall|j: int| 0 <= j < s.len() implies s[j] != c by { if j > 0 { assert(s.skip(1)[j - 1] == s[j]); } } }
+        }
+    }
+}
 /// N10 wrapper for `str::split_once` with a char delimiter (generic `Pattern`): splits at the FIRST occurrence
 #[verifier::external_body]
 pub fn vx_split_once_char<'a>(s: &'a String, c: char) -> (r: Option<(&'a str, &'a str)>)
@@ -349,4 +363,10 @@ pub fn vx_cow_hash<H: core::hash::Hasher>(a: &Cow<'_, str>, state: &mut H) ensur
 pub fn vx_str_hash<H: core::hash::Hasher>(a: &str, state: &mut H) ensures *final(state) == hash_str(*old(state), a@) { core::hash::Hash::hash(a, state) }
 #[verifier::external_body]
 pub fn vx_box_str_to_string(b: &Box<str>) -> (r: String) ensures r@ == box_str_view(*b) { b.to_string() }
+
+/// `String::truncate(n)`: cuts at byte offset n, which must lie on a char boundary (otherwise it panics); a no-op for n >= len
+pub assume_specification [std::string::String::truncate] (s: &mut String, n: usize)
+    requires n >= vstd::utf8::encode_utf8(old(s)@).len() || exists|i: int| 0 <= i <= old(s)@.len() && vstd::utf8::encode_utf8(#[trigger] old(s)@.subrange(0, i)).len() == n,
+    ensures n >= vstd::utf8::encode_utf8(old(s)@).len() ==> final(s)@ == old(s)@,
+            forall|i: int| 0 <= i <= old(s)@.len() && vstd::utf8::encode_utf8(#[trigger] old(s)@.subrange(0, i)).len() == n ==> final(s)@ == old(s)@.subrange(0, i);
 }
